@@ -6,10 +6,11 @@
     Proofs/C11_Acq.v, C11_Bo.v, C11_Lcbsc.v, C11_Case.v. *)
 From Coq Require Import Reals.
 From Coquelicot Require Import Coquelicot.
-From Coq Require Import List ZArith QArith Qminmax Arith Bool.
+From Coq Require Import List ZArith QArith Qminmax Qabs Arith Bool Permutation.
+From Coq Require String.
 From Coq Require PrimFloat.
 From Elfi Require Import Sched.Sched Sched.Bo Num.Mcmc Num.Acq Sched.BoCase Gen.C11_Lcbsc.
-From Elfi Require Import Proofs.C11_Acq Proofs.C11_Bo Proofs.C11_Lcbsc Proofs.C11_Case.
+From Elfi Require Import Proofs.C11_Acq Proofs.C11_Box Proofs.C11_Bo Proofs.C11_Lcbsc Proofs.C11_Case.
 From Elfi Require Properties.C09.
 Import ListNotations.
 Local Close Scope Q_scope.
@@ -117,6 +118,47 @@ Theorem C11_randmaxvar_metropolis_in_box :
     Forall (fun x => in_box_f bs x = true) (select chain picks).
 Proof. exact randmaxvar_metropolis_in_box. Qed.
 Print Assumptions C11_randmaxvar_metropolis_in_box.
+
+(** ================= 1b. "the box" is the user's box, parameter by parameter ================= *)
+
+(** GPyRegression.__init__ (model [box_of]): the box every acquisition rule works in does not depend
+    on the order in which the user wrote the keys of the bounds dict. *)
+Theorem C11_user_box_order_independent :
+  forall names d d', NoDup (map fst d) -> Permutation d d' -> box_of names d = box_of names d'.
+Proof. exact box_of_perm. Qed.
+Print Assumptions C11_user_box_order_independent.
+
+(** ... and its coordinate i is the interval the dict binds to parameter_names[i] (with a single
+    parameter: the only interval of the dict, parameter_names may be None there). *)
+Theorem C11_user_box_by_name :
+  forall names d bs, box_of names d = Some bs ->
+    length bs = length names /\
+    (length names <> 1 ->
+     forall i n, nth_error names i = Some n -> exists iv, lookup d n = Some iv /\ nth_error bs i = Some iv) /\
+    (length names = 1 -> bs = map snd d).
+Proof. exact box_of_by_name. Qed.
+Print Assumptions C11_user_box_by_name.
+
+(** Hence the decidable predicate evaluated on an acquire call says: exactly n points, and in every
+    point the value at the position of parameter n lies in the interval the USER gave for n. *)
+Theorem C11_acquired_in_named_interval :
+  forall c, Acq.ok c = true ->
+    length (a_out c) = a_n c /\
+    (length (a_names c) <> 1 ->
+     forall x, In x (a_out c) -> forall i n, nth_error (a_names c) i = Some n ->
+       exists iv xi, lookup (a_dict c) n = Some iv /\ nth_error x i = Some xi /\ (fst iv <= xi /\ xi <= snd iv)%Q).
+Proof. exact ok_named. Qed.
+Print Assumptions C11_acquired_in_named_interval.
+
+(** the same for a whole Bayesian-optimisation run: every acquired row and every row supplied to
+    (= received by) the simulator *)
+Theorem C11_bo_rows_in_named_interval :
+  forall k, bo_ok k = true -> length (k_names k) <> 1 ->
+    forall rows, (In rows (k_acq_tab k) \/ exists i, In (i, Some rows) (k_supplied k)) ->
+    forall x, In x rows -> forall i n, nth_error (k_names k) i = Some n ->
+      exists iv xi, lookup (k_dict k) n = Some iv /\ nth_error x i = Some xi /\ (fst iv <= xi /\ xi <= snd iv)%Q.
+Proof. exact bo_ok_named. Qed.
+Print Assumptions C11_bo_rows_in_named_interval.
 
 (** ================= 2. evidence bookkeeping, for every schedule ================= *)
 
@@ -235,6 +277,32 @@ Theorem C11_lcb_derivative :
 Proof. exact lcb_derivative. Qed.
 Print Assumptions C11_lcb_derivative.
 
+(** Histories on ONE acquisition object over ONE surrogate that is updated / re-optimised between
+    the calls: the model keeps no state across calls -- the answer to the query at position
+    [length before] is the translated formula on that step's surrogate outputs alone ... *)
+Theorem C11_history_model_stateless :
+  forall before s after,
+    nth_error (hist_model (before ++ s :: after)) (length before) = Some (step_val s, step_grad s).
+Proof. exact hist_model_stateless. Qed.
+Print Assumptions C11_history_model_stateless.
+
+(** ... a function of the surrogate's current outputs only ... *)
+Theorem C11_step_model_function :
+  forall s1 s2,
+    h_beta s1 = h_beta s2 -> h_mean s1 = h_mean s2 -> h_var s1 = h_var s2 ->
+    h_gmean s1 = h_gmean s2 -> h_gvar s1 = h_gvar s2 -> h_sqrt s1 = h_sqrt s2 ->
+    step_val s1 = step_val s2 /\ step_grad s1 = step_grad s2.
+Proof. exact step_model_function. Qed.
+Print Assumptions C11_step_model_function.
+
+(** ... and the decidable predicate evaluated on an observed history says: at every step the
+    long-lived object's value and gradient are those of a freshly built object on the CURRENT
+    surrogate (1e-9), the gradient matches central differences of the current acquisition function,
+    and every acquire call made along the way returned n points of the user's box. *)
+Theorem C11_history_ok_sound : forall h, hist_ok h = true -> hist_property h.
+Proof. exact hist_ok_sound. Qed.
+Print Assumptions C11_history_ok_sound.
+
 (** ================= the decidable predicates ================= *)
 
 Theorem C11_ok_sound : forall c, BoCase.ok c = true -> property_holds c.
@@ -269,6 +337,31 @@ Example C11_example_acquire :
                           bs (PerParam [1 # 4; 0 # 1]%Q) [[5 # 1; 7 # 1]; [(-3) # 1; (-2) # 1]]%Q [2 # 1; 1 # 1]%Q 3 in
   rows_eqb out [[(-1) # 1; 0 # 1]; [(-1) # 1; 0 # 1]; [(-1) # 1; 0 # 1]]%Q && forallb (in_box bs) out = true.
 Proof. vm_compute. reflexivity. Qed.
+
+(** the user's dict written "the other way round": same box, parameter a keeps (-2, 3), b keeps (5, 6) *)
+Module C11_names. Import String. Definition na := "a"%string. Definition nb := "b"%string. End C11_names.
+Example C11_example_dict_order :
+  let a := C11_names.na in
+  let b := C11_names.nb in
+  box_of [a; b] [(b, (5 # 1, 6 # 1)); (a, ((-2) # 1, 3 # 1))]%Q = Some [((-2) # 1, 3 # 1); (5 # 1, 6 # 1)]%Q
+  /\ box_of [a; b] [(a, ((-2) # 1, 3 # 1)); (b, (5 # 1, 6 # 1))]%Q = Some [((-2) # 1, 3 # 1); (5 # 1, 6 # 1)]%Q
+  /\ box_of [a; b] [(a, ((-2) # 1, 3 # 1))]%Q = None.
+Proof. vm_compute. auto. Qed.
+
+(** a history of two queries at the same point with the surrogate updated in between: the model's
+    answers differ (they follow the surrogate), and observations equal to them satisfy the predicate *)
+Example C11_example_history :
+  let sq := [(4 # 1, 2 # 1); (1 # 1, 1 # 1); (16 # 1, 4 # 1); (1 # 4, 1 # 2)]%Q in
+  let s1 := {| h_beta := 2 # 1; h_mean := 1 # 1; h_var := 2 # 1; h_gmean := [1 # 1]; h_gvar := [2 # 1]; h_sqrt := sq;
+               h_val := Some ((-1) # 1); h_grad := Some [0 # 1]; h_fval := (-1) # 1; h_fgrad := [0 # 1]; h_fd := [0 # 1] |}%Q in
+  let s2 := {| h_beta := 2 # 1; h_mean := 0 # 1; h_var := 8 # 1; h_gmean := [1 # 1]; h_gvar := [2 # 1]; h_sqrt := sq;
+               h_val := Some ((-4) # 1); h_grad := Some [1 # 2]; h_fval := (-4) # 1; h_fgrad := [1 # 2]; h_fd := [1 # 2] |}%Q in
+  let stale := {| h_beta := 2 # 1; h_mean := 0 # 1; h_var := 8 # 1; h_gmean := [1 # 1]; h_gvar := [2 # 1]; h_sqrt := sq;
+               h_val := Some ((-1) # 1); h_grad := Some [0 # 1]; h_fval := (-4) # 1; h_fgrad := [1 # 2]; h_fd := [1 # 2] |}%Q in
+  let h := fun steps => {| hs_names := []; hs_dict := []; hs_mbounds := []; hs_steps := steps; hs_acq := [] |} in
+  hist_agree (h [s1; s2]) = true /\ hist_ok (h [s1; s2]) = true
+  /\ hist_agree (h [s1; stale]) = false /\ hist_ok (h [s1; stale]) = false.
+Proof. vm_compute. auto. Qed.
 
 (** Bayesian optimisation of a toy target: batch_size 1, one batch per acquisition, one initial
     batch from the prior, 3 evidence points, max_parallel 2.  The acquisition answers with the
